@@ -1,17 +1,24 @@
 #!/venv/bin/python
-"""Run each seeded change against the quick check of its own property (and the related checks listed
-in RELATED) in a scratch worktree; write seeded/matrix.json and update seeded/<name>/meta.json."""
+"""Run each seeded change against the quick check of its own property at several VERIF_SEED values and against the
+related checks named in RELATED at VERIF_SEED=1, each in a scratch worktree of /repo HEAD (never in /repo).
+Writes seeded/matrix.json and updates seeded/<name>/meta.json.
+usage: seed_matrix.py [--seeds 1,2,3] [NAMES...]"""
 import json, os, re, subprocess, sys
 ROOT = os.path.dirname(os.path.dirname(os.path.abspath(__file__)))
-RELATED = {"C01": ["C13"], "C02": ["C13"], "C03": ["C10"], "C05": ["C06"], "C06": ["C05"], "C07": ["C06"], "C10": ["C03"],
-           "C13": ["C01"], "C14": ["C01", "C13"], "C15": [], "C18": ["C11"], "C12": [], "C16": ["C12"]}
-names = sys.argv[1:] or sorted(n for n in os.listdir(os.path.join(ROOT, "seeded")) if os.path.isdir(os.path.join(ROOT, "seeded", n)))
+RELATED = {"C01": ["C13", "C15"], "C02": ["C13"], "C03": ["C10"], "C05": ["C06"], "C06": ["C05"], "C07": ["C06"], "C10": ["C03"],
+           "C13": ["C01", "C16"], "C14": ["C01", "C13", "C12"], "C18": ["C11"], "C16": ["C12"]}
+args = sys.argv[1:]
+seeds = [1, 2, 3]
+if "--seeds" in args:
+    i = args.index("--seeds"); seeds = [int(x) for x in args[i + 1].split(",")]; del args[i:i + 2]
+names = args or sorted(n for n in os.listdir(os.path.join(ROOT, "seeded")) if os.path.isdir(os.path.join(ROOT, "seeded", n)))
 mp = os.path.join(ROOT, "seeded", "matrix.json")
 matrix = json.load(open(mp)) if os.path.exists(mp) else {}
-for name in names:
-    prop = name.split("_")[0]
-    props = [prop] + RELATED.get(prop, [])
-    r = subprocess.run([os.path.join(ROOT, "tools", "try_seed.py"), name] + props, capture_output=True, text=True)
+
+
+def run(name, props, seed):
+    env = dict(os.environ, VERIF_SEED=str(seed))
+    r = subprocess.run([os.path.join(ROOT, "tools", "try_seed.py"), name] + props, capture_output=True, text=True, env=env)
     res = {}
     for line in r.stdout.splitlines():
         m = re.match(r"(\S+) x (\S+) \[quick\]: exit=(\d) (\S+) violations=(\d+) wall=(\d+)s", line)
@@ -19,10 +26,27 @@ for name in names:
             res[m.group(2)] = {"result": m.group(4), "violations": int(m.group(5)), "wall_s": int(m.group(6))}
         elif "PATCH DOES NOT APPLY" in line:
             res["_"] = {"result": "patch_does_not_apply_to_head"}
-    matrix[name] = res
-    print(name, {k: v["result"] for k, v in res.items()}, flush=True)
+    return res
+
+
+for name in names:
+    prop = name.split("_")[0]
+    entry = {"own": {}, "related": {}}
+    for sd in seeds:
+        r = run(name, [prop], sd)
+        if "_" in r:
+            entry = {"_": r["_"]}
+            break
+        entry["own"][str(sd)] = r.get(prop, {"result": "HARNESS-ERROR"})
+    if "_" not in entry and RELATED.get(prop):
+        entry["related"] = run(name, RELATED[prop], 1)
+    matrix[name] = entry
+    own = [v["result"] for v in entry.get("own", {}).values()]
+    print(name, prop, f"{own.count('CAUGHT')}/{len(own)}", {k: v["result"] for k, v in entry.get("related", {}).items()}, entry.get("_", ""), flush=True)
     json.dump(matrix, open(mp, "w"), indent=1, sort_keys=True)
     d = os.path.join(ROOT, "seeded", name, "meta.json")
     meta = json.load(open(d)) if os.path.exists(d) else {}
-    meta["checks_quick_tier"] = res
+    meta.pop("checks_quick_tier", None)
+    meta["checks_quick_tier_by_VERIF_SEED"] = entry
+    meta["caught_by"] = sorted(([prop] if own.count("CAUGHT") else []) + [k for k, v in entry.get("related", {}).items() if v["result"] == "CAUGHT"])
     json.dump(meta, open(d, "w"), indent=1)
